@@ -38,6 +38,8 @@ func (h *Hist) genConfigs() {
 		name := fmt.Sprintf("g%d", i)
 		if useDefault && i == ng-1 {
 			name = "default"
+		} else if i == 0 && ng > 1 && !useDefault && r.chance(6) {
+			name = "asg1" // a group named like ANOTHER group's cloud group: the two kinds of name must never be mixed up
 		} else if i == 1 && r.chance(10) {
 			name = r.pick("G0", "g0 ", " g0", "Default", "g0.") // distinct names that a careless normalisation would merge
 		}
@@ -461,6 +463,34 @@ func (h *Hist) randomEvent() string {
 	hard := int64(o.HardDeleteGracePeriodDuration() / time.Second)
 	cool := o.ScaleUpCoolDownPeriodDuration()
 	ev := r.intn(22)
+	if r.chance(map[bool]int{true: 22, false: 3}[focus == "restore"]) && len(nodes) > 0 {
+		// most of the group was tainted a moment ago (an operator's mistake, a burst of scale-downs): fewer than min_nodes stay
+		// untainted although the group is well stocked — sometimes filled right up to max_nodes first
+		st, _ := h.ctl.VerifGroupState(o.Name)
+		if r.chance(40) {
+			cpu, mem := h.groupNodeSize(gi)
+			for k := len(nodes); k < st.MaxNodes && k < 14; k++ {
+				h.addNode(gi, cpu, mem, int64(r.pickI(10, 1000, 5000)), true)
+			}
+			g := h.aws.asgs[o.CloudProviderGroupName]
+			if int64(len(g.Instances)) > g.Desired {
+				g.Desired = int64(len(g.Instances))
+			}
+			nodes = h.cfgIndexNodes(gi)
+		}
+		keep := r.rng(0, st.MinNodes)
+		for _, n := range nodes {
+			if n.hasTaint(escKey) || n.hasTaint(forceKey) || n.Unschedulable {
+				continue
+			}
+			if keep > 0 {
+				keep--
+				continue
+			}
+			n.Taints = append(n.Taints, WTaint{Key: escKey, Effect: "NoSchedule", Rel: true, Ago: r.pickI64(0, 1, 5, soft/2)})
+		}
+		return "taint-most"
+	}
 	if h.big && r.chance(30) {
 		// a large group is marked for removal wholesale: most of its nodes tainted long ago and empty, a few recent or busy
 		gi, o = 0, h.cfgs[0]
